@@ -225,6 +225,15 @@ let p_setcall () : Ops.setcall =
       else if Str_.length t >= 2 && t.[0] = 'c' && t.[1] = 'A' then Ops.CAt (Some (z_of_string (Str_.sub t 2 (Str_.length t - 2))))
       else raise (Parse_error ("bad setcall " ^ t))
 
+let p_alg () : ImplSet.setalg =
+  match next () with
+  | "union" -> ImplSet.AUnion | "inter" -> ImplSet.AInter | "diff" -> ImplSet.ADiff
+  | t -> raise (Parse_error ("bad set algebra " ^ t))
+let p_agg () : ImplZSet.zagg =
+  match next () with
+  | "sum" -> ImplZSet.GSum | "min" -> ImplZSet.GMin | "max" -> ImplZSet.GMax
+  | t -> raise (Parse_error ("bad aggregate " ^ t))
+
 let p_op () : Ops.op =
   let name = next () in
   match name with
@@ -257,6 +266,66 @@ let p_op () : Ops.op =
   | "SSetExpires" -> let k = p_bytes () in let v = p_value () in Ops.SSetExpires (k, v, p_int ())
   | "SSetMany" -> Ops.SSetMany (p_list (fun () -> p_pair p_bytes p_value))
   | "SSetWith" -> let k = p_bytes () in let v = p_value () in Ops.SSetWith (k, v, p_list p_setcall)
+  | "LDelete" -> let k = p_bytes () in Ops.LDelete (k, p_value ())
+  | "LDeleteBack" -> let k = p_bytes () in let v = p_value () in Ops.LDeleteBack (k, v, p_int ())
+  | "LDeleteFront" -> let k = p_bytes () in let v = p_value () in Ops.LDeleteFront (k, v, p_int ())
+  | "LGet" -> let k = p_bytes () in Ops.LGet (k, p_int ())
+  | "LInsertAfter" -> let k = p_bytes () in let pv = p_value () in Ops.LInsertAfter (k, pv, p_value ())
+  | "LInsertBefore" -> let k = p_bytes () in let pv = p_value () in Ops.LInsertBefore (k, pv, p_value ())
+  | "LLen" -> Ops.LLen (p_bytes ())
+  | "LPopBack" -> Ops.LPopBack (p_bytes ())
+  | "LPopBackPushFront" -> let a = p_bytes () in Ops.LPopBackPushFront (a, p_bytes ())
+  | "LPopFront" -> Ops.LPopFront (p_bytes ())
+  | "LPushBack" -> let k = p_bytes () in Ops.LPushBack (k, p_value ())
+  | "LPushFront" -> let k = p_bytes () in Ops.LPushFront (k, p_value ())
+  | "LRange" -> let k = p_bytes () in let a = p_int () in Ops.LRange (k, a, p_int ())
+  | "LSet" -> let k = p_bytes () in let i = p_int () in Ops.LSet (k, i, p_value ())
+  | "LTrim" -> let k = p_bytes () in let a = p_int () in Ops.LTrim (k, a, p_int ())
+  | "EAdd" -> let k = p_bytes () in Ops.EAdd (k, p_list p_value)
+  | "EDelete" -> let k = p_bytes () in Ops.EDelete (k, p_list p_value)
+  | "EAlg" -> let a = p_alg () in Ops.EAlg (a, p_list p_bytes)
+  | "EStore" -> let a = p_alg () in let d = p_bytes () in Ops.EStore (a, d, p_list p_bytes)
+  | "EExists" -> let k = p_bytes () in Ops.EExists (k, p_value ())
+  | "EItems" -> Ops.EItems (p_bytes ())
+  | "ELen" -> Ops.ELen (p_bytes ())
+  | "EMove" -> let a = p_bytes () in let b = p_bytes () in Ops.EMove (a, b, p_value ())
+  | "EPop" -> let k = p_bytes () in Ops.EPop (k, p_opt p_bytes)
+  | "ERandom" -> let k = p_bytes () in Ops.ERandom (k, p_opt p_bytes)
+  | "EScan" -> let k = p_bytes () in let c = p_int () in let p = p_bytes () in Ops.EScan (k, c, p, p_int ())
+  | "HDelete" -> let k = p_bytes () in Ops.HDelete (k, p_list p_bytes)
+  | "HExists" -> let k = p_bytes () in Ops.HExists (k, p_bytes ())
+  | "HFields" -> Ops.HFields (p_bytes ())
+  | "HGet" -> let k = p_bytes () in Ops.HGet (k, p_bytes ())
+  | "HGetMany" -> let k = p_bytes () in Ops.HGetMany (k, p_list p_bytes)
+  | "HIncr" -> let k = p_bytes () in let f = p_bytes () in Ops.HIncr (k, f, p_int ())
+  | "HIncrFloat" ->
+      let k = p_bytes () in let f = p_bytes () in let d = p_float () in
+      let tbl = p_list (fun () -> p_pair p_bytes (fun () -> p_opt p_float)) in
+      Ops.HIncrFloat (k, f, d, tbl, p_bytes ())
+  | "HItems" -> Ops.HItems (p_bytes ())
+  | "HLen" -> Ops.HLen (p_bytes ())
+  | "HScan" -> let k = p_bytes () in let c = p_int () in let p = p_bytes () in Ops.HScan (k, c, p, p_int ())
+  | "HSet" -> let k = p_bytes () in let f = p_bytes () in Ops.HSet (k, f, p_value ())
+  | "HSetMany" -> let k = p_bytes () in Ops.HSetMany (k, p_list (fun () -> p_pair p_bytes p_value))
+  | "HSetNX" -> let k = p_bytes () in let f = p_bytes () in Ops.HSetNX (k, f, p_value ())
+  | "HValues" -> Ops.HValues (p_bytes ())
+  | "ZAdd" -> let k = p_bytes () in let v = p_value () in Ops.ZAdd (k, v, p_float ())
+  | "ZAddMany" -> let k = p_bytes () in Ops.ZAddMany (k, p_list (fun () -> p_pair p_value p_float))
+  | "ZCount" -> let k = p_bytes () in let lo = p_float () in Ops.ZCount (k, lo, p_float ())
+  | "ZDelete" -> let k = p_bytes () in Ops.ZDelete (k, p_list p_value)
+  | "ZDeleteRank" -> let k = p_bytes () in let a = p_int () in Ops.ZDeleteRank (k, a, p_int ())
+  | "ZDeleteScore" -> let k = p_bytes () in let lo = p_float () in Ops.ZDeleteScore (k, lo, p_float ())
+  | "ZGetRank" -> let k = p_bytes () in let v = p_value () in Ops.ZGetRank (k, v, p_bool ())
+  | "ZGetScore" -> let k = p_bytes () in Ops.ZGetScore (k, p_value ())
+  | "ZIncr" -> let k = p_bytes () in let v = p_value () in Ops.ZIncr (k, v, p_float ())
+  | "ZAlg" -> let i = p_bool () in let g = p_agg () in Ops.ZAlg (i, g, p_list p_bytes)
+  | "ZStore" -> let i = p_bool () in let g = p_agg () in let d = p_bytes () in Ops.ZStore (i, g, d, p_list p_bytes)
+  | "ZLen" -> Ops.ZLen (p_bytes ())
+  | "ZRangeRank" -> let k = p_bytes () in let a = p_int () in let b = p_int () in Ops.ZRangeRank (k, a, b, p_bool ())
+  | "ZRangeScore" ->
+      let k = p_bytes () in let lo = p_float () in let hi = p_float () in let d = p_bool () in
+      let off = p_int () in Ops.ZRangeScore (k, lo, hi, d, off, p_int ())
+  | "ZScan" -> let k = p_bytes () in let c = p_int () in let p = p_bytes () in Ops.ZScan (k, c, p, p_int ())
   | _ -> raise (Parse_error ("unknown operation " ^ name))
 
 (* ---------- the comparison with the specification ---------- *)
